@@ -3,6 +3,7 @@
   (First-fit part; the optimal-fit part rests on C03 and is added below it.)
 -/
 import Lemmas.PipelineFacts
+import Lemmas.HNormPipeline
 import Lemmas.OptimalOneLine
 import Lemmas.InplaceWrap
 import Lemmas.Ansi
@@ -485,5 +486,43 @@ theorem shortcut_sound_optimal_all (env : Env) (hcw : ∀ c, env.cw c ≤ c.utf8
   simp only [Option.map_some, Option.some.injEq]
   rw [one_line_render env o line nPrev frs c2 hl hnp c1, hind]
   simp [LineD.render]
+
+/-! ### coloured text: H-norm discharged for safe lines -/
+
+/-- **a safe line that fits comes back as one line, first-fit** — both separators, built-in
+    splitters, `break_words` on/off. Safe (`SeqSafe`): every space (and, with the hyphen
+    splitter, every hyphen) is met in skipper state `normal` and the line ends in state `normal`;
+    in particular (`seqSafe_of_segs`) any mixture of visible characters and well-formed CSI/OSC
+    sequences whose sequences contain no space (and no hyphen). The complement is exactly the
+    recorded finding classes KF-1a, KF-1b, KF-2. -/
+-- @audit TW.C05.fits_one_line_firstfit_safe
+theorem fits_one_line_firstfit_safe (env : Env) (hsp : env.cw SP = 1) (mo : MinimaOracle Int) (o : Opts)
+    (hb : Builtin o.splitter) (halg : o.alg = .firstFit) (line : Text) (hsafe : SeqSafe o.splitter line)
+    (nPrev : Nat) (frs : List Word)
+    (hpipe : pipeline env o line (o.width - displayWidth env.cw o.subsequentIndent) = some frs)
+    (hfit : displayWidth env.cw (indentOf o nPrev) + displayWidth env.cw line ≤ o.width) :
+    wrapSingleLineSlow env mo o line nPrev = some (specLines o [frs] 0 nPrev) :=
+  fits_one_line_firstfit env hsp mo o hb halg line nPrev frs hpipe
+    (pipeline_hnorm env o hb line hsafe _ frs hpipe) hfit
+
+/-- the same for optimal-fit (any penalties with `nline_penalty > 0`, any conforming minima) -/
+-- @audit TW.C05.fits_one_line_optimal_safe
+theorem fits_one_line_optimal_safe (env : Env) (hsp : env.cw SP = 1) (mo : MinimaOracle Int) (o : Opts)
+    (hb : Builtin o.splitter) (p : Penalties) (halg : o.alg = .optimalFit p) (hP : 0 < p.nline)
+    (line : Text) (hsafe : SeqSafe o.splitter line) (nPrev : Nat) (frs : List Word)
+    (hpipe : pipeline env o line (o.width - displayWidth env.cw o.subsequentIndent) = some frs)
+    (hmo : MoConforms mo p frs
+      [if nPrev = 0 then o.width - displayWidth env.cw o.initialIndent
+       else o.width - displayWidth env.cw o.subsequentIndent,
+       o.width - displayWidth env.cw o.subsequentIndent])
+    (hfit : displayWidth env.cw (indentOf o nPrev) + displayWidth env.cw line ≤ o.width) :
+    wrapSingleLineSlow env mo o line nPrev = some (specLines o [frs] 0 nPrev) :=
+  fits_one_line_optimal env hsp mo o hb p halg hP line nPrev frs hpipe
+    (pipeline_hnorm env o hb line hsafe _ frs hpipe) hmo hfit
+
+/-- coloured text is safe: a concrete instance (test, labelled as such) -/
+example : SeqSafe .hyphen (renderSegs [.csi "1;31".toList 'm', .ch 'a', .ch ' ', .ch 'b', .ch '-', .ch 'c',
+    .osc "8;;http://x.y".toList .st, .ch 'd', .osc "8;;".toList .st, .csi [] 'm']) :=
+  seqSafe_of_segs _ _ (by decide) (by decide)
 
 end TW.C05
